@@ -437,3 +437,10 @@ package protocol
 //@ func setArgBytes(h, key, value, noValue) r
 //@   modifies alltype(protocol.argsKV), mem
 //@   allocates
+
+// Assumed frame (not verified here): storing a trailer copies key and value into buffers owned by the trailer,
+// it does not write into the array its arguments live in (the connection buffer).
+//@ func Trailer.UpdateArgBytes(t, key, value) err
+//@   modifies t._all, alltype(protocol.argsKV), membut(key, value)
+//@   allocates
+
